@@ -357,6 +357,209 @@ def _correlation(blocks, bo, n_callee, lo, call, cont, adts=None):
     return None
 
 
+def _places(x, out):
+    """every local mentioned in a MIR JSON fragment"""
+    if isinstance(x, dict):
+        if "l" in x and "p" in x and isinstance(x["l"], int):
+            out.add(x["l"])
+            for e in x["p"]:
+                if isinstance(e, dict) and "i" in e:
+                    out.add(e["i"])
+            return
+        for v in x.values():
+            _places(v, out)
+    elif isinstance(x, list):
+        for v in x:
+            _places(v, out)
+
+
+def _unzip(fb, d, zi):
+    """`for (x, k) in A.zip(B)` with B a crate-local iterator type that did not exist on the pinned
+    tree: the loop is shown to the rules as std's `Zip::next` (the general implementation - a
+    user type cannot be TrustedRandomAccess) executes it: `x = A.next()?`, then `k = B.next()?`,
+    item `(x, k)`.  B's `next` becomes a direct call (and is then spliced like any fresh helper).
+    Returns the rewritten function dict, or None when the shape is not exactly the `for` desugaring."""
+    body = d["body"]
+    blocks = body["blocks"]
+    locs = body["locals"]
+    T = fb._types
+    zt = blocks[zi]["term"]
+
+    def plain(op):
+        return op.get("k") == "move" and op["place"]["p"] == []
+
+    if len(zt["args"]) != 2 or not all(plain(a) for a in zt["args"]) or zt["dest"]["p"]:
+        return None
+    la, lb = zt["args"][0]["place"]["l"], zt["args"][1]["place"]["l"]
+    tya, tyb = locs[la]["ty"], locs[lb]["ty"]
+    tb = T[tyb]
+    known_adts = set((_ANCHORS or {}).get("adts", {})) | set((_ANCHORS or {}).get("adts_pub", {}))
+    if tb.get("k") != "adt" or not tb.get("local") or tb.get("path") in known_adts:
+        return None
+    nxt = [q for q, b_ in fb.bodies.items() if b_.d.get("impl_trait") == "std::iter::Iterator" and b_.d.get("name") == "next" and b_.d.get("impl_self_ty") == tyb]
+    if len(nxt) != 1:
+        return None
+    nb = fb.bodies[nxt[0]]
+    import cfg as _cfg
+    if _cfg.back_edges(nb) or len(nb.blocks) > 80:
+        return None
+    # the `next` of A: as some loop of the crate already calls it, or the slice iterators
+    tmpl = None
+    for b_ in fb.bodies.values():
+        for _, t_ in b_.calls():
+            if t_.get("callee") == "std::iter::Iterator::next" and t_.get("callee_args") == [{"ty": tya}]:
+                tmpl = t_
+                break
+        if tmpl:
+            break
+    ta = T[tya]
+    if tmpl is None:
+        if ta.get("path") not in ("std::slice::IterMut", "std::slice::Iter"):
+            return None
+        tmpl = {"resolved": "<%s<'a, T> as std::iter::Iterator>::next" % ta["path"], "resolved_args": ta.get("args", []), "resolved_self_ty": None}
+    # the zip value on its way into the loop
+    Z, R = {zt["dest"]["l"]}, set()
+    into = None
+    changed = True
+    while changed:
+        changed = False
+        for bi, blk in enumerate(blocks):
+            for s_ in blk["stmts"]:
+                if s_["k"] != "assign" or s_["place"]["p"]:
+                    continue
+                rv, dl = s_["rv"], s_["place"]["l"]
+                if rv["k"] == "use" and rv["op"].get("k") in ("move", "copy") and rv["op"]["place"]["p"] == [] and rv["op"]["place"]["l"] in Z and dl not in Z:
+                    Z.add(dl); changed = True
+                if rv["k"] == "ref" and rv.get("mut") and dl not in R:
+                    pl = rv["place"]
+                    if (pl["p"] == [] and pl["l"] in Z) or (pl["p"] == ["*"] and pl["l"] in R):
+                        R.add(dl); changed = True
+            t_ = blk["term"]
+            if t_["k"] == "call" and t_.get("callee") == "std::iter::IntoIterator::into_iter" and len(t_["args"]) == 1 and plain(t_["args"][0]) and t_["args"][0]["place"]["l"] in Z and not t_["dest"]["p"]:
+                if t_["dest"]["l"] not in Z:
+                    Z.add(t_["dest"]["l"]); changed = True
+                into = bi
+    nexts = [bi for bi, blk in enumerate(blocks) if blk["term"]["k"] == "call" and blk["term"].get("callee") == "std::iter::Iterator::next" and (blk["term"].get("resolved") or "").startswith("<std::iter::Zip<A, B> as") and len(blk["term"]["args"]) == 1 and plain(blk["term"]["args"][0]) and blk["term"]["args"][0]["place"]["l"] in R]
+    if into is None or len(nexts) != 1:
+        return None
+    ni = nexts[0]
+    nt = blocks[ni]["term"]
+    if nt["dest"]["p"] or nt.get("target") is None:
+        return None
+    dest = nt["dest"]["l"]
+    tb_ = blocks[nt["target"]]
+    if len(tb_["stmts"]) != 1 or tb_["stmts"][0]["k"] != "assign" or tb_["stmts"][0]["rv"].get("k") != "discr" or tb_["stmts"][0]["rv"]["place"] != {"l": dest, "p": []} or tb_["term"]["k"] != "switch":
+        return None
+    dv = tb_["stmts"][0]["place"]["l"]
+    sw = tb_["term"]
+    if sw["discr"].get("place") != {"l": dv, "p": []}:
+        return None
+    tg = {str(a): b for a, b in sw["targets"]}
+    if set(tg) != {"0", "1"}:
+        return None
+    # nothing else looks at the zip value
+    for bi, blk in enumerate(blocks):
+        for s_ in blk["stmts"]:
+            m = set()
+            _places(s_, m)
+            if m & (Z | R):
+                ok = s_["k"] == "assign" and not s_["place"]["p"] and s_["place"]["l"] in (Z | R)
+                if not ok:
+                    return None
+        m = set()
+        _places(blk["term"], m)
+        if m & (Z | R) and bi not in (zi, into, ni) and blk["term"]["k"] != "drop":
+            return None
+    # the item type (X, K) and the options around its parts
+    ot = T[locs[dest]["ty"]]
+    if ot.get("path") != "std::option::Option" or not ot.get("args"):
+        return None
+    tup = ot["args"][0]["ty"]
+    if T[tup].get("k") != "tuple" or len(T[tup].get("elems", [])) != 2:
+        return None
+    ea, eb = T[tup]["elems"]
+
+    def intern(td):
+        for i, x in enumerate(T):
+            if x.get("s") == td["s"] and x.get("k") == td["k"]:
+                return i
+        T.append(td)
+        return len(T) - 1
+
+    opt_a = intern({"s": "std::option::Option<%s>" % T[ea]["s"], "k": "adt", "path": "std::option::Option", "local": False, "args": [{"ty": ea}]})
+    opt_b = nb.d["output"]
+    ref_a = intern({"s": "&mut %s" % ta["s"], "k": "ref", "mut": True, "to": tya})
+    ref_b = intern({"s": "&mut %s" % tb["s"], "k": "ref", "mut": True, "to": tyb})
+    new_locals = [dict(l) for l in locs]
+
+    def fresh(ty):
+        new_locals.append({"ty": ty, "mut": True})
+        return len(new_locals) - 1
+
+    A_, B_, rA, rB, nA, nB, dA, dB, tp = fresh(tya), fresh(tyb), fresh(ref_a), fresh(ref_b), fresh(opt_a), fresh(opt_b), fresh(locs[dv]["ty"]), fresh(locs[dv]["ty"]), fresh(tup)
+    sp = nt["span"]
+    nblocks = []
+    for bi, blk in enumerate(blocks):
+        nbk = dict(blk)
+        nbk["stmts"] = [s_ for s_ in blk["stmts"] if not (s_["k"] == "assign" and not s_["place"]["p"] and s_["place"]["l"] in (Z | R))]
+        nblocks.append(nbk)
+    base = len(nblocks)
+    n1, n_none, n2, n3, n4 = base, base + 1, base + 2, base + 3, base + 4
+
+    def P(l, proj=None):
+        return {"l": l, "p": proj or []}
+
+    def assign(l, rv):
+        return {"k": "assign", "place": P(l), "rv": rv, "span": sp}
+
+    # zip(a, b): the two iterators stay apart
+    zb = nblocks[zi]
+    zb["stmts"] = zb["stmts"] + [assign(B_, {"k": "use", "op": {"k": "move", "place": P(lb)}})]
+    zb["term"] = {"k": "goto", "target": zt["target"], "span": zt["span"]}
+    ib = nblocks[into]
+    it_ = dict(ib["term"])
+    it_["args"] = [{"k": "move", "place": P(la)}]
+    it_["dest"] = P(A_)
+    it_["callee_args"] = [{"ty": tya}]
+    it_["resolved_args"] = [{"ty": tya}]
+    ib["term"] = it_
+    # next(): A first
+    kb = nblocks[ni]
+    kb["stmts"] = kb["stmts"] + [assign(rA, {"k": "ref", "mut": True, "fake": False, "place": P(A_)})]
+    ca = dict(nt)
+    ca.update({"args": [{"k": "move", "place": P(rA)}], "dest": P(nA), "target": n1, "callee_args": [{"ty": tya}], "resolved": tmpl["resolved"], "resolved_args": tmpl.get("resolved_args", []), "resolved_self_ty": tmpl.get("resolved_self_ty"), "unzipped": True})
+    kb["term"] = ca
+    nblocks.append({"cleanup": False, "stmts": [assign(dA, {"k": "discr", "place": P(nA)})], "term": {"k": "switch", "discr": {"k": "move", "place": P(dA)}, "targets": [["0", n_none], ["1", n2]], "otherwise": sw["otherwise"], "span": sp}})
+    none_rv = {"k": "aggregate", "ak": "adt", "path": "std::option::Option", "local": False, "variant": 0, "vname": "None", "fields": [], "args": [{"ty": tup}], "active": None, "ops": []}
+    nblocks.append({"cleanup": False, "stmts": [assign(dest, none_rv)], "term": {"k": "goto", "target": tg["0"], "span": sp}})
+    cb_ = {"span": sp, "fn_span": nt.get("fn_span", sp), "k": "call", "func": {"k": "const", "fn": "std::iter::Iterator::next", "val": {"ty": 0, "ck": "zst"}}, "args": [{"k": "move", "place": P(rB)}], "dest": P(nB), "target": n3, "unwind": None, "callee": "std::iter::Iterator::next", "callee_local": False, "callee_args": [{"ty": tyb}], "callee_trait": "std::iter::Iterator", "resolved": nxt[0], "resolved_local": True, "resolved_kind": "Item", "resolved_args": [], "resolved_derived": False, "resolved_self_ty": tyb, "unzipped": True}
+    nblocks.append({"cleanup": False, "stmts": [assign(rB, {"k": "ref", "mut": True, "fake": False, "place": P(B_)})], "term": cb_})
+    # a `next` that builds `Some(..)` on every path never ends the loop: no edge for its `None`
+    ret_vals = []
+    for blk in nb.blocks:
+        if blk["cleanup"]:
+            continue
+        for s_ in blk["stmts"]:
+            if s_["k"] == "assign" and s_["place"]["l"] == 0:
+                ret_vals.append(s_["place"]["p"] == [] and s_["rv"].get("k") == "aggregate" and s_["rv"].get("path") == "std::option::Option" and s_["rv"].get("vname") == "Some")
+        if blk["term"]["k"] == "call" and blk["term"]["dest"]["l"] == 0:
+            ret_vals.append(False)
+    if ret_vals and all(ret_vals):
+        nblocks.append({"cleanup": False, "stmts": [], "term": {"k": "goto", "target": n4, "span": sp}})
+    else:
+        nblocks.append({"cleanup": False, "stmts": [assign(dB, {"k": "discr", "place": P(nB)})], "term": {"k": "switch", "discr": {"k": "move", "place": P(dB)}, "targets": [["0", n_none], ["1", n4]], "otherwise": sw["otherwise"], "span": sp}})
+    some = lambda: {"dc": 1, "name": "Some"}
+    tup_rv = {"k": "aggregate", "ak": "tuple", "ops": [{"k": "move", "place": P(nA, [some(), {"f": 0, "ty": ea}])}, {"k": "move", "place": P(nB, [some(), {"f": 0, "ty": eb}])}]}
+    some_rv = {"k": "aggregate", "ak": "adt", "path": "std::option::Option", "local": False, "variant": 1, "vname": "Some", "fields": ["0"], "args": [{"ty": tup}], "active": None, "ops": [{"k": "move", "place": P(tp)}]}
+    nblocks.append({"cleanup": False, "stmts": [assign(tp, tup_rv), assign(dest, some_rv)], "term": {"k": "goto", "target": tg["1"], "span": sp}})
+    out = dict(d)
+    nbody = dict(body)
+    nbody["locals"] = new_locals
+    nbody["blocks"] = nblocks
+    out["body"] = nbody
+    return out, nxt[0]
+
+
 def signature_table(d):
     """{function path: signature string} for the named functions of a fact document"""
     tys = d["types"]
@@ -518,7 +721,9 @@ class FactBase:
         self._absorbed = None
         self.fresh_paths = set()
         self.fresh_loopy = set()
+        self.unzipped = set()
         if self.presentation != "written":
+            self.unzip_user_iterators()
             self.splice_fresh_helpers()
 
     def ty(self, ix):
@@ -533,6 +738,27 @@ class FactBase:
         if b is None:
             b = getattr(self, "_variants", {}).get(path)
         return b
+
+    def unzip_user_iterators(self):
+        """see _unzip: loops over `a.zip(user_iterator)` shown as the two `next` calls std makes"""
+        for p in list(self.bodies):
+            for rnd in range(4):
+                b = self.bodies[p]
+                if b.kind == "Promoted":
+                    break
+                hit = None
+                for bi, t in b.calls():
+                    if t.get("callee") == "std::iter::Iterator::zip" and t.get("target") is not None:
+                        r = _unzip(self, b.d, bi)
+                        if r is not None:
+                            hit = r
+                            break
+                if hit is None:
+                    break
+                nb = Body(self, hit[0])
+                nb.path = p
+                self.bodies[p] = nb
+                self.unzipped.add(hit[1])
 
     # ------------------------------------------------------------------ helper splicing
     def splice_fresh_helpers(self):
@@ -549,8 +775,9 @@ class FactBase:
         def is_fresh(b):
             if b.kind not in ("Fn", "AssocFn") or b.path in known or b.d.get("instance_of") in known:
                 return False
-            if b.d.get("impl_trait") and not self.fresh_trait(b.d["impl_trait"]):
+            if b.d.get("impl_trait") and not self.fresh_trait(b.d["impl_trait"]) and b.path not in self.unzipped:
                 return False            # an impl of std's / a dependency's / a pinned-tree trait
+                                        # (a fresh iterator's `next` is called directly after _unzip)
             if (b.reachable() and b.is_pub() and not b.d.get("impl_trait")) or "variant_of" in b.d:
                 return False
             if len(b.blocks) > 80:
